@@ -214,6 +214,10 @@ class Circuit:
         await asyncio.wait(
             [asyncio.create_task(self._init_done.wait()), self._simtask],
             return_when=asyncio.FIRST_COMPLETED)
+        if self._error is not None and not self._simtask.done():
+            # the start has failed after the initialization of blocks (e.g. during
+            # the very first evaluation); the simulation task is cleaning up
+            await asyncio.wait([self._simtask])
         if self._simtask.done():
             if self._simtask.cancelled():
                 msg = "The simulation task is finished"
